@@ -110,7 +110,7 @@ Lemma skipped_eq E ds : skipped E ds = s_excluded E ds.
 Proof.
   unfold skipped, s_excluded. induction ds as [|d ds IH]; [reflexivity|].
   cbn [existsb]. rewrite IH. f_equal.
-  destruct d as [c|c|]; cbn; [| |reflexivity].
+  destruct d as [c dp vp|c dp vp|]; cbn; [| |reflexivity].
   - change (eval_cond E c) with (s_cond E c). destruct (s_cond E c) as [[|]|]; reflexivity.
   - change (eval_cond E c) with (s_cond E c). destruct (s_cond E c) as [[|]|]; reflexivity.
 Qed.
@@ -178,14 +178,14 @@ Proof. unfold append_flat. apply fold_left_app. Qed.
 (** ** the simulation *)
 Section Sim.
   Variables (S : schema) (D : document) (E : env).
-  Hypothesis Hconds : conds_ok S D = true.
+  Hypothesis Hconds : conds_ok S D E = true.
 
   Definition subs_ok (flat : list (name * fnode)) : Prop :=
-    Forall (fun kf => forallb (sel_conds_ok S) (fn_sub (snd kf)) = true) flat.
+    Forall (fun kf => forallb (sel_conds_ok S E) (fn_sub (snd kf)) = true) flat.
 
   Lemma frag_conds_ok n f :
     find_frag n (frags D) = Some f ->
-    cond_ok S (fr_cond f) = true /\ forallb (sel_conds_ok S) (fr_sels f) = true.
+    cond_ok S (fr_cond f) = true /\ forallb (sel_conds_ok S E) (fr_sels f) = true.
   Proof.
     intro Hf. apply find_frag_in in Hf.
     unfold conds_ok in Hconds. apply andb_true_iff in Hconds as [_ H2].
@@ -193,7 +193,7 @@ Section Sim.
   Qed.
 
   Lemma collect_sim fuel : forall ot sels visited g v flat,
-    forallb (sel_conds_ok S) sels = true ->
+    forallb (sel_conds_ok S E) sels = true ->
     s_collect_flat S D E fuel ot sels visited = Some (v, flat) ->
     collect_impl S D E fuel ot sels visited g = COk v (append_flat flat g) /\ subs_ok flat.
   Proof.
@@ -205,7 +205,8 @@ Section Sim.
         cbn [forallb] in Hok. apply andb_true_iff in Hok as [Hs1 Hrest].
         cbv zeta in Hs |- *.
         destruct (s_excluded E (sel_dirs s)); [apply IH; assumption|].
-        destruct s as [a n p ds sub|n p ds|tc p ds sub].
+        destruct s as [a n p ds sub|n p ds|tc p ds sub];
+          (cbn [sel_conds_ok] in Hs1; apply andb_true_iff in Hs1 as [Hdirs Hs1]).
         * destruct (s_collect_flat S D E 0 ot rest visited) as [[v' l]|] eqn:Er; [|discriminate].
           inversion Hs; subst. destruct (IH visited (gfs_append (response_key a n) {| fn_name := n; fn_pos := p; fn_sub := sub |} g) _ _ Hrest Er) as [H1 H2].
           rewrite H1. split; [reflexivity|]. constructor; [exact Hs1|exact H2].
@@ -225,7 +226,7 @@ Section Sim.
         cbv zeta in Hs |- *.
         destruct (s_excluded E (sel_dirs s)); [apply IH; assumption|].
         assert (Hfrag : forall sub visited',
-                   forallb (sel_conds_ok S) sub = true ->
+                   forallb (sel_conds_ok S E) sub = true ->
                    match s_collect_flat S D E fuel ot sub visited' with
                    | Some (v0, l) => match s_collect_flat S D E (Datatypes.S fuel) ot rest v0 with
                                      | Some (v1, l0) => Some (v1, l ++ l0)
@@ -245,7 +246,8 @@ Section Sim.
           destruct (IHf ot sub visited' g _ _ Hsub Esub) as [H1 H2]. rewrite H1.
           destruct (IH v0 (append_flat l g) _ _ Hrest Er) as [H3 H4]. rewrite H3.
           rewrite append_flat_app. split; [reflexivity|]. apply Forall_app. split; assumption. }
-        destruct s as [a n p ds sub|n p ds|tc p ds sub].
+        destruct s as [a n p ds sub|n p ds|tc p ds sub];
+          (cbn [sel_conds_ok] in Hs1; apply andb_true_iff in Hs1 as [Hdirs Hs1]).
         * destruct (s_collect_flat S D E (Datatypes.S fuel) ot rest visited) as [[v' l]|] eqn:Er; [|discriminate].
           inversion Hs; subst. destruct (IH visited (gfs_append (response_key a n) {| fn_name := n; fn_pos := p; fn_sub := sub |} g) _ _ Hrest Er) as [H1 H2].
           rewrite H1. split; [reflexivity|]. constructor; [exact Hs1|exact H2].
